@@ -564,7 +564,13 @@ def external(it, qual: str):
                 k.cmpfn = f
                 return k
             return Builtin("cmp_to_key", cmp_to_key)
-        if name in ("cached_property", "wraps", "total_ordering"):
+        if name == "total_ordering":
+            def total_ordering(c):
+                if isinstance(c, ClassVal):
+                    c.total_ordering = True
+                return c
+            return Builtin("total_ordering", total_ordering)
+        if name in ("cached_property", "wraps"):
             return Builtin(name, lambda f=None, **k: f)
         if name == "reduce":
             def reduce(f, xs, *init):
